@@ -220,3 +220,48 @@ func VerifC16Fresh() {
 	verifAssert(count >= 5, "C16/fresh-node-count")
 	verifCover("C16/fresh/end")
 }
+
+var c16Copies = []string{".b = .a", ".b = [.a[]]", ".b = (.a | .[0:])", ".b = (.a | map(.))", ".b = .a + []", ".b = (.a | reverse | reverse)"}
+var c16CopyNames = []string{"assign", "collect", "slice", "map", "concat", "reverse-twice"}
+
+// VerifC16CopyThenDelete: a multi-step history — copy a sequence into the document, delete an element from one
+// of the two, then ask every element of BOTH where it is. Keys must stay the elements' own.
+func VerifC16CopyThenDelete() {
+	n := 3
+	seq := vSeq()
+	for i := 0; i < n; i++ {
+		seq.Content = append(seq.Content, vInt(verifStrN("e"+verifItoa(int64(i)), 1, "03")))
+	}
+	doc := vDoc(vMap(vStr("a"), seq))
+	c := verifChoice("copy", len(c16Copies))
+	victim := verifChoice("deleteFrom", 2) // 0: from the original .a, 1: from the copy .b
+	i := verifIntRange("i", 0, n-1)
+	target := []string{".a", ".b"}[victim]
+	e := vParse(c16Copies[c] + " | del(" + target + "[7770001])")
+	vSubst(e, "7770001", "!!int", verifItoa(int64(i)))
+	_, err := vEval(e, doc)
+	label := "copy=" + c16CopyNames[c] + " delete-from=" + target
+	verifAssert(err == nil, "C16/copy-delete-error "+label)
+	if err != nil {
+		return
+	}
+	for _, name := range []string{"a", "b"} {
+		cont := c16One("."+name, doc)
+		verifAssert(cont != nil && cont.Kind == SequenceNode, "C16/copy-delete-container "+label)
+		if cont == nil || cont.Kind != SequenceNode {
+			return
+		}
+		cPath := c16One("path", cont)
+		for k, el := range cont.Content {
+			kn := c16One("key", el)
+			verifAssert(kn != nil && verifEqStr(kn.Value, verifItoa(int64(k))), "C16/key-is-position-after-copy-and-delete "+label+" in=."+name)
+			pa := c16One("path", el)
+			if pa != nil && cPath != nil && len(pa.Content) == len(cPath.Content)+1 {
+				verifAssert(c16Follow(cont, pa, len(cPath.Content)) == el, "C16/path-leads-to-node-after-copy-and-delete "+label+" in=."+name)
+			} else {
+				verifFail("C16/path-shape-after-copy-and-delete " + label)
+			}
+		}
+	}
+	verifCover("C16/copydelete/end")
+}
